@@ -10,7 +10,7 @@ M = 60_000
 
 
 # ------------------------------------------------------------------------------------------ candles
-def gen_candles(rng, n, base=100.0, step=0.125, vol=4, gap_prob=0.15, flat_prob=0.05, start_ts=None, trend=0.0):
+def gen_candles(rng, n, base=100.0, step=0.125, vol=4, gap_prob=0.15, flat_prob=0.05, start_ts=None, trend=0.0, doji_prob=0.1):
     """valid 1m candles on a dyadic price lattice (multiples of `step`): float +,-,* are exact on it.
     Returns rows [(o, c, h, l, v)]; gaps between close and next open with probability gap_prob."""
     rows = []
@@ -21,6 +21,11 @@ def gen_candles(rng, n, base=100.0, step=0.125, vol=4, gap_prob=0.15, flat_prob=
             o = max(step, p + rng.choice([-3, -2, -1, 1, 2, 3]) * step)
         if rng.random() < flat_prob:
             c = h = l = o
+        elif rng.random() < doji_prob:
+            # flat body with wicks on both sides (open == close): the rising/falling tie of the price path
+            c = o
+            h = o + rng.randint(1, vol) * step
+            l = max(step, o - rng.randint(1, vol) * step)
         else:
             c = max(step, o + (rng.randint(-vol, vol) + trend) * step)
             h = max(o, c) + rng.randint(0, vol) * step
@@ -287,7 +292,7 @@ def gen_script(rng, spot=False, step=0.125, rich=True, tight=False):
             lo, hi = max(1, lo // 3), max(2, hi // 2)
         return rng.randint(lo, hi) * step
     s = {}
-    kind = rng.choice(['market', 'limit', 'stop', 'ladder'])
+    kind = rng.choice(['market', 'limit', 'stop', 'ladder', 'straddle'])
     q = rng.choice([0.25, 0.5, 1.0, 2.0])
 
     def entry_rows(side):
@@ -298,6 +303,9 @@ def gen_script(rng, spot=False, step=0.125, rich=True, tight=False):
             return [(q, -sg * off(1, 4))]
         if kind == 'stop':
             return [(q, sg * off(1, 4))]
+        if kind == 'straddle':
+            # one row on each side of the price: a LIMIT and a STOP entry resting around the open
+            return [(q, -sg * off(1, 3)), (q, sg * off(1, 3))]
         return [(q, -sg * off(1, 3)), (q, -sg * off(4, 6))]
     every = rng.choice([1, 2, 3, 5, 7])
     s['long'] = {'every': every, 'phase': rng.randrange(every), 'rows': entry_rows('long')}
